@@ -469,6 +469,8 @@ package core
 //@ ghost var gCompletes int
 //@ ghost var gRollbacks int
 //@ ghost var gTran *SuTran
+// gBlockThrew: the last Thread.Call ended in a panic (the block/function threw)
+//@ ghost var gBlockThrew bool
 // (the effect of the underlying database transaction on the database is outside this model)
 //@ func (t ITran) Complete() (r)
 //@   assumed
@@ -479,8 +481,8 @@ package core
 // gTran: the transaction object created by the last NewSuTran (a modelling device: the ghost is bound here)
 //@ func NewSuTran(itran, updatable) (r)
 //@   assumed
-//@   modifies gTran
-//@   ensures r != nil && fresh(r) && r.status == 0 && gTran == r
+//@   modifies gTran, gBlockThrew
+//@   ensures r != nil && fresh(r) && r.status == 0 && gTran == r && !gBlockThrew
 //@ func (st *SuTran) Ended() (r)
 //@   requires st != nil
 //@   ensures! r <==> st.status != 0
@@ -499,7 +501,9 @@ package core
 //@ func (th *Thread) Call(fn, args) (r)
 //@   assumed
 //@   maypanic
-//@   modifies all
+//@   modifies all, gBlockThrew
+//@   ensures !gBlockThrew
+//@   on_panic gBlockThrew
 //@ func ToBool(x) (r)
 //@   assumed
 //@   pure
